@@ -12,6 +12,7 @@ import (
 	"net"
 	"strings"
 	"sync/atomic"
+	"syscall"
 	"time"
 
 	"verifharness/lib/drv"
@@ -503,10 +504,65 @@ func childPeers(b run.Batch, r *ev.Result, rng *rand.Rand) {
 
 // ---------------------------------------------------------------- shutdown scenarios
 
-type shutScenario struct{ idle, half, httpKeep, httpNew, httpHalfHdr, httpHalfBody int }
+// nonReaders gives device B a migration order close to the 64 KiB limit (so
+// that its sync reply cannot disappear into socket buffers) and opens n
+// connections with a minimal receive buffer and MSS that send B's id and
+// never read. It returns once the handlers are seen parked in conn.Write.
+func (w *world) nonReaders(n int) ([]net.Conn, error) {
+	newGCA := refenc.GenKey(w.rng)
+	m := refenc.Migration{Equipment: w.B.Key.Pub, NewGCA: newGCA.Pub, NewID: 9}
+	for i := 0; i < 180; i++ {
+		m.Servers = append(m.Servers, refenc.AuthServer{Pub: refenc.GenKey(w.rng).Pub, Location: strings.Repeat("m", 255), HTTP: 1, TCP: 1, UDP: 1}.Signed(newGCA.Priv))
+	}
+	run.Op("migration order of %d bytes for device %d (long sync reply)", len(m.Bytes()), w.B.ID)
+	if st, body, err := w.PostMigration(m.Signed(w.GCAk.Priv)); err != nil || st != 200 {
+		return nil, fmt.Errorf("large migration order refused: status %d err %v %.100s", st, err, body)
+	}
+	rep, refused, err := w.Sync(w.B.ID)
+	if err != nil || refused || len(rep.SignedPart) < 60000 {
+		return nil, fmt.Errorf("long sync reply not delivered to a reading peer: err %v refused %v len %d", err, refused, len(rep.SignedPart))
+	}
+	w.r.Count("nonreader.long_reply_read_by_wellbehaved_peer", 1)
+	d := net.Dialer{Timeout: 5 * time.Second, Control: func(network, address string, c syscall.RawConn) error {
+		var serr error
+		if err := c.Control(func(fd uintptr) {
+			if serr = syscall.SetsockoptInt(int(fd), syscall.SOL_SOCKET, syscall.SO_RCVBUF, 2048); serr == nil {
+				serr = syscall.SetsockoptInt(int(fd), syscall.IPPROTO_TCP, syscall.TCP_MAXSEG, 256)
+			}
+		}); err != nil {
+			return err
+		}
+		return serr
+	}}
+	var conns []net.Conn
+	for i := 0; i < n; i++ {
+		run.Op("sync request for device %d from a peer with a 2 KiB receive buffer that never reads", w.B.ID)
+		c, err := d.Dial("tcp", fmt.Sprintf("127.0.0.1:%d", w.TCP))
+		if err != nil {
+			return conns, err
+		}
+		conns = append(conns, c)
+		if _, err := c.Write(idBytes(w.B.ID)); err != nil {
+			return conns, err
+		}
+		w.r.Eval(1)
+		w.r.Count("inputs.tcp", 1)
+		w.r.Count("inputs.tcp.nonreading", 1)
+	}
+	for i := 0; i < 300; i++ {
+		if len(syncWriters(stacks())) >= n {
+			w.r.Count("nonreader.handlers_parked_in_write", int64(n))
+			return conns, nil
+		}
+		time.Sleep(5 * time.Millisecond)
+	}
+	return conns, fmt.Errorf("the sync handlers of the non-reading peers were never seen parked in conn.Write (reply swallowed by socket buffers?)")
+}
+
+type shutScenario struct{ idle, half, httpKeep, httpNew, httpHalfHdr, httpHalfBody, nonRead int }
 
 func (s shutScenario) String() string {
-	return fmt.Sprintf("sync idle=%d half-sent=%d; http keepalive-idle=%d new-silent=%d half-header=%d half-body=%d", s.idle, s.half, s.httpKeep, s.httpNew, s.httpHalfHdr, s.httpHalfBody)
+	return fmt.Sprintf("sync idle=%d half-sent=%d non-reading=%d; http keepalive-idle=%d new-silent=%d half-header=%d half-body=%d", s.idle, s.half, s.nonRead, s.httpKeep, s.httpNew, s.httpHalfHdr, s.httpHalfBody)
 }
 
 func childShutdown(b run.Batch, r *ev.Result, rng *rand.Rand) {
@@ -523,12 +579,12 @@ func childShutdown(b run.Batch, r *ev.Result, rng *rand.Rand) {
 	var slice int
 	fmt.Sscan(b.P("slice"), &slice)
 	fixed := [][]shutScenario{
-		{{}, {idle: 1}, {half: 1}, {idle: 3, half: 2, httpKeep: 1, httpNew: 1, httpHalfHdr: 1, httpHalfBody: 1}},
-		{{httpKeep: 2}, {httpNew: 1, httpHalfHdr: 1}, {idle: 2, httpHalfBody: 1}, {idle: 20, half: 20}},
+		{{}, {idle: 1}, {half: 1}, {nonRead: 2}, {idle: 3, half: 2, httpKeep: 1, httpNew: 1, httpHalfHdr: 1, httpHalfBody: 1}},
+		{{httpKeep: 2}, {httpNew: 1, httpHalfHdr: 1}, {nonRead: 1}, {idle: 2, httpHalfBody: 1}, {idle: 20, half: 20}},
 	}
 	scs := append([]shutScenario(nil), fixed[slice%2]...)
 	for i := 0; i < b.N; i++ {
-		scs = append(scs, shutScenario{rng.Intn(6), rng.Intn(4), rng.Intn(3), rng.Intn(3), rng.Intn(2), rng.Intn(2)})
+		scs = append(scs, shutScenario{rng.Intn(6), rng.Intn(4), rng.Intn(3), rng.Intn(3), rng.Intn(2), rng.Intn(2), rng.Intn(3) / 2})
 	}
 	for i, sc := range scs {
 		if w.failed {
@@ -554,6 +610,18 @@ func childShutdown(b run.Batch, r *ev.Result, rng *rand.Rand) {
 			}
 			held = append(held, c)
 			syncHeld = append(syncHeld, c)
+		}
+		if sc.nonRead > 0 {
+			conns, err := w.nonReaders(sc.nonRead)
+			held = append(held, conns...)
+			syncHeld = append(syncHeld, conns...)
+			if err != nil {
+				fail(err)
+				for _, c := range held {
+					c.Close()
+				}
+				return
+			}
 		}
 		// a later connection was served → the accept loop has launched a handler for each earlier one
 		if _, _, err := w.Sync(w.A.ID); err != nil {
